@@ -855,4 +855,29 @@ example : sourceAccepted .raw 2 false = false ∧ sourceAccepted .uri 2 true = f
 example : (EV.ofClose true).token = "closeerr" ∧ (EV.join (EV.ofRun .canceled) (EV.ofClose true) true true).token = "canceled+closeerr" ∧
     (EV.join (EV.ofRun .canceled) (EV.ofClose true) false false).token = "other" ∧ (EV.ofRun .nil).token = "nil" := by decide
 
+/-! ## round 4: the definitions regenerated by symbolic execution, on concrete values -/
+
+/-- round 4 non-vacuity: the body of `Run` as regenerated by symbolic execution, on concrete results of the path methods -/
+example : Gen.ChosenCases.httpRunBody true .nil .errPasses .nil = (["loadAmmo", "runPreloaded"], .nil) ∧
+    Gen.ChosenCases.httpRunBody true .nil .canceled .nil = (["loadAmmo", "runPreloaded"], .canceled) ∧
+    Gen.ChosenCases.httpRunBody true .errNoAmmo .nil .nil = (["loadAmmo"], .errNoAmmo) ∧
+    Gen.ChosenCases.httpRunBody false .nil .nil .canceled = (["runFullScan"], .canceled) := by decide
+
+/-- round 4 non-vacuity: the regenerated filter loop of loadAmmo and the regenerated IsChosenCase on an unsorted list
+(only observable values: the way the source scans the list may change) -/
+example : Gen.ChosenCases.loadAmmoKeep (fun n : Nat => n % 2 == 0) [1, 2, 3, 4] = [2, 4] ∧
+    Gen.ChosenCases.isChosenCase "a" ["b", "a"] = true ∧ Gen.ChosenCases.isChosenCase "a" ["ab", "b"] = false ∧
+    Gen.ChosenCases.passCounterImplemented = true := by decide
+
+/-- round 4 non-vacuity: one iteration of each regenerated loop on concrete states — the limit is reached; nothing
+delivered after a complete pass; a chosen ammo is offered and counted; a filtered-out ammo is not counted; the replay
+offers entry `k % length` -/
+example :
+    (match Gen.ChosenCases.runFullScanStep 2 false 2 0 (.ammo 0) true with | .ret .nil => true | _ => false) = true ∧
+    (match Gen.ChosenCases.runFullScanStep 0 false 0 1 (.ammo 0) true with | .ret .errNoAmmo => true | _ => false) = true ∧
+    (match Gen.ChosenCases.runFullScanStep 5 false 1 0 (.ammo 3) true with | .offer 3 2 => true | _ => false) = true ∧
+    (match Gen.ChosenCases.runFullScanStep 5 false 1 0 (.ammo 3) false with | .tau 1 => true | _ => false) = true ∧
+    (match Gen.ChosenCases.runPreloadedStep 0 0 3 false 7 0 with | .offer 1 (8, _) => true | _ => false) = true ∧
+    (match Gen.ChosenCases.runPreloadedStep 2 0 3 false 6 0 with | .ret .errPasses => true | _ => false) = true := by decide
+
 end Pandora.Props.C14
